@@ -13,8 +13,12 @@ RULE = ('a quarter of the cases: closing-in-election family (a process whose cra
         'written from the statement; distinct non-trivial = distinct (from, to, role) transitions observed x '
         'scenario shape')
 ASSUMPTIONS = ['edge table of DESIGN.md 8/C02 (a superset of the implementation table on the documented returns)']
-FLOORS = {'quick': {'state_changes': 3000, 'master_driven_entries': 1000, 'slave_entries': 400},
-          'thorough': {'state_changes': 60000, 'master_driven_entries': 20000, 'slave_entries': 8000}}
+FLOORS = {'quick': {'state_changes': 3000, 'master_driven_entries': 1000, 'slave_entries': 400,
+                    'slave_entries_checked_against_the_newest_state_received': 400,
+                    'older_state_payloads_received_after_newer_ones': 100},
+          'thorough': {'state_changes': 60000, 'master_driven_entries': 20000, 'slave_entries': 8000,
+                       'slave_entries_checked_against_the_newest_state_received': 8000,
+                       'older_state_payloads_received_after_newer_ones': 2000}}
 COUNT = {'quick': 360, 'thorough': 8000}
 BUDGET_S = {'quick': 55, 'thorough': 540}
 
@@ -37,14 +41,23 @@ CLOSING_KNOBS = {'n_min': 2, 'n_max': 4, 'late_p': 0.0, 'trigger_p': 0.0, 'fence
                           'supvisors_failure_p': 0.7, 'managed_p': 1.0}}
 
 
+# a family with slow handshakes (each of its XML-RPCs takes 0 - 3 s): the state and modes read during the handshake of
+# a (re)joining instance are delivered after the newer publications of the peer
+SLOW_KNOBS = {'n_min': 2, 'n_max': 4, 'late_p': 0.5, 'trigger_p': 0.2, 'fence': 'false',
+              'kinds': ['restart', 'restart', 'restart_master', 'cutlink', 'crash'], 'n_dist': [1, 2, 3],
+              'handshake_skew': [0.0, 0.3, 1.0, 2.0, 3.0]}
+
+
 def plan(tier, seed):
     return [{'seed': seed * 1000003 + i, 'family': 'closing-in-election' if i % 4 == 3 else 'general'}
-            for i in range(COUNT[tier])]
+            for i in range(COUNT[tier])] + \
+        [{'seed': seed * 1000003 + 800000 + i, 'family': 'slow-handshake'} for i in range(COUNT[tier] // 3)]
 
 
 def run_case(case):
     mon = StateGraphMonitor()
-    run = Run(case, CLOSING_KNOBS if case.get('family') == 'closing-in-election' else KNOBS, [mon])
+    run = Run(case, {'closing-in-election': CLOSING_KNOBS, 'slow-handshake': SLOW_KNOBS}.get(case.get('family'), KNOBS),
+              [mon])
     violations = run.execute()
     sig = None
     if mon.transitions:
